@@ -537,6 +537,17 @@ def universal_layout(rnd, W=None, tag="universal random struct"):
         L.via_macro = True
     if not L.rule_valid():
         return universal_layout(rnd, W, tag)
+    # token-surface forms, drawn from a generator of their own (keyed by the layout) so that the main stream,
+    # and with it every layout produced before these forms existed, stays what it was
+    import zlib
+    r2 = random.Random(zlib.crc32(repr(L.sig()).encode()))
+    if r2.random() < 0.2:
+        L.struct_doc = r2.choice(["Debug view of the Copy (Clone) register", "Default configuration; PartialEq with the reset value", "status register"])
+    if not L.via_macro and r2.random() < 0.2:
+        L.macro_idents = True
+    for f in L.fields:
+        if f.access == "rw" and r2.random() < 0.15:
+            f.access_form = r2.choice(["r,w", "w,r"])
     return L
 
 
